@@ -37,12 +37,32 @@ CHECKS = {
              "merge semantics; later reads attributed via a history-free twin.",
         note="Updater callables from a fixed registry; static falsy arguments only in the all-empty (ValueError) case.",
     ),
+    "C06": dict(
+        category="exploration", design_ref="DESIGN.md 3 C06",
+        technique="runtime monitoring: invariant at a hook (answer battery live index vs Index().build(storage)) over a bounded-exhaustive state-graph exploration + random histories",
+        text="After every operation (incl. ones that raise) with index.valid true, ~200 answers (len/empty/latest_time, every getter, "
+             "searches over time/measurement/tag/field atoms, negations, conjunctions) of the live Index are compared with a freshly "
+             "built Index over the current storage; breadth-first over ALL distinct full internal states reachable within the depth "
+             "bound of a 16-op alphabet (memory, auto_index on/off), all op sequences on CSV to a smaller depth, plus random histories; "
+             "validity transitions (in-order insert keeps valid, read leaves valid) asserted.",
+        note="exhaustive within the stated alphabet and depth; equivalence decided on the battery's answers, not private arrays.",
+    ),
     "C07": dict(
         category="exploration", design_ref="DESIGN.md 3 C07",
         technique="runtime monitoring: reference-model oracle on every getter / len / iter / all after every mutation, index- and scan-served",
         text="All exploration getters, len, iteration and all() (db, filtered, handle; present/absent measurement; tag_keys selections) "
              "are compared with the model after every mutating op of seeded histories in 4 configurations, incl. None/''/line-break values.",
         note="Documented order taken from docs/exploring-data.rst; <= 12 rows.",
+    ),
+    "C08": dict(
+        category="exploration", design_ref="DESIGN.md 3 C08",
+        technique="runtime monitoring: integer-microsecond instant oracle (zoneinfo based) in worker processes with 4 local zones, observing returned times, get_timestamps, TimeQuery answers, sort stability",
+        text="In processes whose local zone is UTC / America/Los_Angeles / Australia/Lord_Howe / Asia/Kathmandu, instants from years "
+             "1700-2240 (adjacent microseconds, ties, float-precision boundaries, DST gaps/folds) presented as aware (fixed offset, IANA) "
+             "or naive-local datetimes go through insert, update(time=static|callable), reopen and time-less stamping; every returned "
+             "time must be tz-UTC aware and the exact instant; all six comparisons at every stored instant +-1us with the comparison "
+             "value in random zones are compared with integer comparison (index- and scan-served); sorted results stable on ties.",
+        note="years 1700-2240; comparison values timezone-aware; at DST gaps/folds either PEP 495 reading of a naive value is accepted.",
     ),
     "C09": dict(
         category="exploration", design_ref="DESIGN.md 3 C09",
@@ -51,6 +71,15 @@ CHECKS = {
              "random depth 3-4 expressions are evaluated on every point of a universe holding all missing/None/''/zero/negative/"
              "equal-to-bound combinations by the real query and by an interpreter of the documented meaning; any exception is a violation.",
         note="exhaustive for the stated vocabulary and universe only; predicates total, map functions type preserving.",
+    ),
+    "C10": dict(
+        category="exploration", design_ref="DESIGN.md 3 C10",
+        technique="runtime monitoring: differential handle-vs-filtered-database oracle on a twin + reference model for isolation of other measurements",
+        text="Every read, getter, len/iter/all, update, update_all, remove, remove_all and insert issued through db.measurement(name) "
+             "(fresh, stale after cache clearing, absent names) is compared with the model restricted to name and with the equivalent "
+             "database operation (on the live db for reads, on a deepcopy/file-copy twin for writes); points of other measurements must "
+             "be untouched and never returned; inserted points must land under name.",
+        note="measurement names non-empty; <= 12 rows; a defect shared identically by handle and database operation is not attributed to C10.",
     ),
     "C17": dict(
         category="exploration", design_ref="DESIGN.md 3 C17",
